@@ -53,6 +53,7 @@ type produceRec struct {
 	markers     []string
 	nrec        int
 	malformed   bool
+	how         string // which header field was falsified
 	invoke, ret int
 	answered    bool
 	code        int16
@@ -200,6 +201,9 @@ func (n *bnode) call(req kmsg.Request, clientID string, after func(resp kmsg.Res
 			return
 		}
 		out, err := h.Handle(ctx, header, parsed)
+		if simrt.Dying() {
+			return // the broker died under this request: no reply ever leaves it
+		}
 		if err != nil {
 			fut.Set(fmt.Errorf("handle: %w", err))
 			return
@@ -373,7 +377,13 @@ func (w *w1) setup() {
 		w.nodes = append(w.nodes, n)
 		node := n
 		s.OnCrash(n.name, func() {
-			node.stop()
+			if node.h == nil {
+				return // already down, restart pending
+			}
+			s.KillNode(node.inc)
+			if node.cancel != nil {
+				node.cancel()
+			}
 			node.h = nil
 			delay := time.Duration(w.cfg("restart_delay_ms", 50)) * time.Millisecond
 			next := fmt.Sprintf("%s#%d", node.name, node.incNo+1)
@@ -422,6 +432,7 @@ func (w *w1) setup() {
 					break
 				}
 			}
+			s.Note("client %d done (left %d)", id, w.clientsLeft)
 			if id < 100 {
 				w.clientsLeft--
 				if w.clientsLeft == 0 {
@@ -479,6 +490,7 @@ func (w *w1) opProduce(client, seq int, op simrt.Op) {
 		sent = w1Malform(sent, op.S, nrec)
 		rec.sent = sent
 		rec.malformed = true
+		rec.how = op.S
 	}
 	n := w.node(int64(client))
 	rec.invoke = w.sim.Step()
